@@ -358,9 +358,16 @@ impl Run {
         let mut headof: i64 = 0;
         let mut foreign = false;
         for (j, data) in entries.iter().enumerate() {
-            match payload::parse(data) {
-                Some(k) => out.push(json!([k, data.len()])),
-                None => {
+            let parsed = payload::parse(data);
+            // a trimmed first element of an offset read can look like a complete small payload by
+            // chance: if it is not an entry of this topic, try the suffix interpretation first
+            let known = match (parsed, self.acked.get(ct)) {
+                (Some(k), Some(list)) => list.iter().any(|a| a.key == k && a.size == data.len()),
+                _ => false,
+            };
+            match parsed {
+                Some(k) if known || !(offset_read && j == 0) => out.push(json!([k, data.len()])),
+                _ => {
                     let mut found = false;
                     if offset_read && j == 0 {
                         if let Some(list) = self.acked.get(ct) {
@@ -377,8 +384,13 @@ impl Run {
                         }
                     }
                     if !found {
-                        foreign = true;
-                        out.push(json!([-9999, data.len()]));
+                        match parsed {
+                            Some(k) => out.push(json!([k, data.len()])),
+                            None => {
+                                foreign = true;
+                                out.push(json!([-9999, data.len()]));
+                            }
+                        }
                     }
                 }
             }
